@@ -134,6 +134,84 @@ Theorem C19_accepted_quiescent_delivered : forall h s, monitor init 0 h = inl s 
 Proof. exact accepted_quiescent_delivered. Qed.
 Print Assumptions C19_accepted_quiescent_delivered.
 
+(* ---- a stalled client is not a disconnected one ----
+   A client whose response write does not return (the browser neither reads nor goes away) stays
+   connected and registered: cpc = PBusy, its done channel stays open, so deliveries to it stay
+   pending.  "It blocks nobody" is stated through the handler being AT REST ([stableb]: no Send in
+   progress, every pending delivery is for a client stalled in a write, no client goroutine has a
+   step of its own left):
+     - at rest is exactly "no goroutine of the handler has an enabled step" (so, under F2/F3, the
+       handler comes to rest only in such states, however long the stalled writes last);
+     - no step of the handler reads or needs a client that is stalled in a write;
+     - the handler reaches rest by its own steps alone, in a bounded number of them;
+     - at rest, the only clients that lack an event broadcast while they were registered are those
+       that are themselves stalled in a write (the delivery still waits for them) or have left;
+       every client sitting in its select has received it. *)
+Theorem C19_stable_iff_handler_at_rest : forall s, reachable false s ->
+  (stableb s = true <-> forall a, handler_step a = true -> step false s a = None).
+Proof. exact stable_iff_handler_at_rest. Qed.
+Print Assumptions C19_stable_iff_handler_at_rest.
+
+Theorem C19_handler_steps_need_no_stalled_client : forall s a s', reachable false s ->
+  handler_step a = true -> step false s a = Some s' ->
+  forall c, touches a = Some c -> cpc (cl s c) <> PBusy.
+Proof. exact handler_steps_need_no_stalled_client. Qed.
+Print Assumptions C19_handler_steps_need_no_stalled_client.
+
+(* No deadlock, no livelock of the handler, stalled clients notwithstanding: from every reachable
+   state the handler's own goroutines reach rest in at most [rest_bound s] steps without a single
+   environment step (no stalled write has to return, no client has to go away), leaving the clients
+   stalled in a write exactly as they were; and no run of handler steps is longer than that. *)
+Theorem C19_handler_comes_to_rest : forall s, reachable false s ->
+  exists tr s', exec false s tr = Some s' /\ stableb s' = true /\
+    (forall a, In a tr -> handler_step a = true) /\ length tr <= rest_bound s /\
+    (forall c, cpc (cl s c) = PBusy -> cl s' c = cl s c).
+Proof. exact handler_comes_to_rest. Qed.
+Print Assumptions C19_handler_comes_to_rest.
+
+Theorem C19_handler_runs_terminate : forall tr s s', reachable false s -> exec false s tr = Some s' ->
+  (forall a, In a tr -> handler_step a = true) -> length tr + rest_bound s' <= rest_bound s.
+Proof. exact handler_runs_terminate. Qed.
+Print Assumptions C19_handler_runs_terminate.
+
+Theorem C19_stalled_clients_hold_up_nobody : forall s, reachable false s -> stableb s = true ->
+  forall e snap c, In (e, snap) (log s) -> In c snap ->
+    (delivered s c e \/ gone s c \/ (cpc (cl s c) = PBusy /\ In (c, e) (pending s))) /\
+    (cpc (cl s c) = PLoop -> delivered s c e).
+Proof. exact stable_all_delivered. Qed.
+Print Assumptions C19_stalled_clients_hold_up_nobody.
+
+(* The harness's judgement at the points where it saw the real handler come to rest (OSettled):
+   [audit] returns the monitor's state at each of them; if [stableb] holds there, every healthy
+   client has every broadcast of its snapshot.  A settle point where [stableb] is false with a
+   delivery pending for a client in its select is reported as a violation of the property. *)
+Theorem C19_settled_points_judged : forall h i s, In (i, s) (audit init 0 h) ->
+  nth_error h i = Some OSettled /\ monitor init 0 (firstn (S i) h) = inl s /\ reachable false s /\
+  (stableb s = true ->
+     forall e snap c, In (e, snap) (log s) -> In c snap ->
+       (delivered s c e \/ gone s c \/ (cpc (cl s c) = PBusy /\ In (c, e) (pending s))) /\
+       (cpc (cl s c) = PLoop -> delivered s c e)).
+Proof. exact settled_points_judged. Qed.
+Print Assumptions C19_settled_points_judged.
+
+(* non-vacuity: client 1 stalled in the write of its first ping, client 2 healthy; two broadcasts;
+   the handler is at rest with both deliveries to client 1 pending and client 2 served *)
+Example C19_ex_stalled_and_healthy : exists s,
+  exec false init [Subscribe; Tick 1; Subscribe; SendCall; SendLock 1; SendSpawn; SendSpawn; SendUnlock;
+                   Deliver 2 1; WriteOK 2; SendCall; SendLock 2; SendSpawn; SendSpawn; SendUnlock; Deliver 2 2; WriteOK 2] = Some s /\
+  stableb s = true /\ got (cl s 2) = [1; 2] /\ cpc (cl s 1) = PBusy /\ pending s = [(1, 1); (1, 2)] /\ registered s = [2; 1].
+Proof. eexists. split; [vm_compute; reflexivity | repeat split]. Qed.
+(* ... and a state that is NOT at rest: the healthy client 2 has not been served yet *)
+Example C19_ex_not_at_rest : exists s,
+  exec false init [Subscribe; Tick 1; Subscribe; SendCall; SendLock 1; SendSpawn; SendSpawn; SendUnlock] = Some s /\
+  stableb s = false /\ held_up s = [(2, 1)].
+Proof. eexists. split; [vm_compute; reflexivity | split; reflexivity]. Qed.
+Example C19_ex_audit : map fst (audit init 0 [OSub 1; OWrite 1 0; OSettled; OSub 2; OWrite 2 0; ORelease 2 true; OSettled;
+                                               OSend 1; OSendEnd 1; OWrite 2 1; ORelease 2 true; OSettled]) = [2; 6; 11]
+  /\ forallb (fun p => stableb (snd p)) (audit init 0 [OSub 1; OWrite 1 0; OSettled; OSub 2; OWrite 2 0; ORelease 2 true; OSettled;
+                                               OSend 1; OSendEnd 1; OWrite 2 1; ORelease 2 true; OSettled]) = true.
+Proof. split; vm_compute; reflexivity. Qed.
+
 (* non-vacuity: a schedule with two clients, one stalled in a write and cancelled while two
    broadcasts are in flight, the other receiving both *)
 Definition ex_trace : list action :=
